@@ -970,3 +970,8 @@ fn next_char_boundary(source: &str, start: usize) -> Option<usize> {
         None => Some(source.len()),
     }
 }
+
+// verification hook: bounded-model-checking harnesses (compiled only by Kani, `--cfg kani`)
+#[cfg(kani)]
+#[path = "/verif/harness/h_snippet.rs"]
+mod verif;
